@@ -27,6 +27,12 @@ func (o *c13oracle) enum(at string, a, b *DEnum) {
 	}
 	for i, v := range a.Vals {
 		if b.Vals[i] != v {
+			if i == 0 && len(a.Vals) == 1 && b.Vals[0].Num == 0 && strings.HasSuffix(b.Vals[0].Name, "UNSPECIFIED") {
+				// the enum had no options: the appended option is its first, and a first option
+				// ending in UNSPECIFIED is taken as the zero value
+				o.fail("C13 option ending in UNSPECIFIED appended to an enum without options replaces the implicit zero value", "enum values (name, number) unchanged", fmt.Sprintf("%s: %v", at, b.Vals[0]), fmt.Sprint(v))
+				continue
+			}
 			o.fail("C13 enum value (name, number) changed by an append edit", "enum values (name, number) unchanged", fmt.Sprintf("%s: %v", at, b.Vals[i]), fmt.Sprint(v))
 		}
 	}
@@ -217,8 +223,11 @@ func runC13(cfg *vh.Config) error {
 			es = append(es, e.Coq)
 		}
 		okall0, okall1 := acceptsAll(b0, t0, pkg, g0.ok), acceptsAll(b1, t1, pkg, g1.ok)
-		cf.Terms = append(cf.Terms, fmt.Sprintf("CEdit\n   %s\n   [%s]\n   %s\n   %s %s %s %s %s\n   %s\n   %s", b0.Coq(), strings.Join(es, ";\n    "), b1.Coq(), j5sgen.S(pkg),
-			vh.BoolTerm(g0.ok), vh.BoolTerm(g1.ok), vh.BoolTerm(okall0), vh.BoolTerm(okall1), filesCoq(g0.files), filesCoq(g1.files)))
+		// embeds: the old descriptors are expected to embed into the new ones - always, except
+		// for the hand-written pair of the known finding
+		embeds := !(i < len(pairs) && pairs[i].KnownNoEmbed)
+		cf.Terms = append(cf.Terms, fmt.Sprintf("CEdit\n   %s\n   [%s]\n   %s\n   %s %s %s %s %s %s\n   %s\n   %s", b0.Coq(), strings.Join(es, ";\n    "), b1.Coq(), j5sgen.S(pkg),
+			vh.BoolTerm(g0.ok), vh.BoolTerm(g1.ok), vh.BoolTerm(okall0), vh.BoolTerm(okall1), vh.BoolTerm(embeds), filesCoq(g0.files), filesCoq(g1.files)))
 		res.Cases = append(res.Cases, vh.CaseRec{Case: i, Stream: "edit", Input: in, Impl: map[string]any{"ok_before": g0.ok, "ok_after": g1.ok, "err_after": g1.err}})
 		if len(t0) == 1 && len(res.Samples) < 2 {
 			res.Sample(in, 2)
